@@ -207,7 +207,7 @@ FRAGMENTS = ['"', '"', "'", '`', '${', '${a', '$(', '$(', '}', ')', ')', "$'", '
              '\n', '\t', ';', ';;', ';&', '&', '&&', '|', '<', '>', '<<', '<<-', '<<<', '<(', '>(',
              '<<E', '<<E ', '<<-E', 'A', "<<'E'", '<<"E"', '<<\\E', '\nE\n', '\n\tE\n', 'E', 'case', 'case x in',
              'esac', 'in', 'a)', '(a)', 'do', 'do ', 'done', '$( (', 'E)', 'case x in a)', 'for', 'for i in', 'if', 'then', 'fi',
-             'function', 'f()', 'time', '-p', '--', 'coproc', 'select', 'while', '!', '=', 'a=',
+             'function', 'function ', '{a}', '{a}>', 'f()', 'time', '-p', '--', 'coproc', 'select', 'while', '!', '=', 'a=',
              'a=(', '+=', '[[', ']]', '-', '>&', '<&', '&>', '2', '~', '((', '))', '# c']
 
 
@@ -314,6 +314,8 @@ HANDWRITTEN = [
     '$(a <<in \n)\nin\n)', '$(a <<in\n)\nin\n)', '$(a <<E<<F\n)\nE\n)', '$(a <<E <<F\n)\nF\n)\nE\n)',
     '$(A <<E \n)\nE\n)', '$(<<E \n)\nE\n)', '$(<<E\t\n)\nE\n)', '$(A <<E \nx\nE\n)', '$(A << E \n)\nE\n)',
     '$(A <<E B\n)\nE\n)', '$(A <<-E \n\t)\n\tE\n)',
+    'function {a}> {', 'function {a}>b', 'function {a}<b { c; }', 'function {a} {', 'function a {', 'function a\n{',
+    'function a b {', 'function "a" {', 'function $a {', 'function 1>a {', 'function a=b {', 'a=b {',
     ']]', '; ]]', '[[', '[[ a ]]; ]]', '{ ]]; }', '$(a <\\\n', '$(a <<\\\n', '$(a <<-\\\n',
     '${a:-$"b"}', '${a:-$\'b\'}', '${a:-"$"b""}', '$(a <<E\\\\ \nx\nE\\\\\n)',
     '$(a <<"E\\x"\nx\nE\\x\n)', '$(a <<"E\'"\nx\nE\'\n)', "$(a <<\\'E\nx\n'\n)",
